@@ -174,7 +174,10 @@ def spec_tags(spec, kind):
         ref = 'tri-15param-table'
     else:
         ref = 'ok'
-    aff = _vec_affected(spec, DIM[kind])
+    try:
+        aff = _vec_affected(spec, DIM[kind])
+    except Exception:            # the element cannot even be built: an observation of the executing driver, not of the tag
+        aff = False
     return {'elem': label(spec), 'reflocs': ref, 'vecdim': 'affected' if aff else 'ok'}
 
 
